@@ -100,6 +100,54 @@ def _collect(ctx, module, cfg, tag, path, timeout):
     return mc, lines
 
 
+def _replay(ctx, binp, mode, cases_path, mm_path, timeout=900):
+    """Run a replay.  allsorts runs inside the harness process: when it brings the process down (stack overflow of an
+    unbounded recursion, abort) or never returns, the cases are replayed family by family so that the verdict names the
+    family that kills it instead of ending in a tool error.  Returns (summary, mismatches, deaths)."""
+    import subprocess
+
+    def once(cp, mp):
+        env = dict(os.environ, VERIF_REPO=vlib.REPO)
+        try:
+            p = subprocess.run([binp, mode, cp, mp], cwd=vlib.VERIF, env=env, stdout=subprocess.PIPE, stderr=subprocess.PIPE,
+                               text=True, timeout=timeout)
+        except subprocess.TimeoutExpired:
+            return None, "did not return within %ss" % timeout
+        if p.returncode != 0:
+            tail = (p.stderr or p.stdout).strip().splitlines()[-1:] or [""]
+            return None, "harness process died (exit %s) %s" % (p.returncode, tail[0][:200])
+        last = [l for l in p.stdout.splitlines() if l.strip().startswith("{")]
+        return (json.loads(last[-1]) if last else {}), None
+
+    rep, death = once(cases_path, mm_path)
+    if death is None:
+        return rep, vlib.read_ndjson(mm_path), []
+    ctx.note("%s: %s - replaying family by family" % (mode, death))
+    fams = {}
+    with open(cases_path) as f:
+        for n, ln in enumerate(f):
+            fams.setdefault(json.loads(ln)["fam"], []).append((n, ln))
+    total, mism, deaths = {"counters": {}}, [], []
+    for fam, items in sorted(fams.items()):
+        cp, mp = "%s.%s" % (cases_path, fam), "%s.%s" % (mm_path, fam)
+        with open(cp, "w") as f:
+            f.writelines(ln for _, ln in items)
+        r, d = once(cp, mp)
+        if d is not None:
+            deaths.append((fam, d))
+            continue
+        for m in vlib.read_ndjson(mp):
+            m["ci"] = items[m["ci"]][0]
+            mism.append(m)
+        for k2, v in r.items():
+            if k2 == "counters":
+                for a, b in v.items():
+                    total["counters"][a] = total["counters"].get(a, 0) + b
+            else:
+                total[k2] = total.get(k2, 0) + v
+    return total, mism, deaths
+
+
 def _plant_img(lines):
     """Binding self-check: a copy of one case whose expectations are falsified (font route, EBLC/CBLC table route,
     sbix table route)."""
@@ -193,19 +241,24 @@ def run(ctx):
         f.write(json.dumps(_plant_names(name_lines)) + "\n")
 
     img_mm, name_mm = ctx.path("img_mismatches.ndjson"), ctx.path("name_mismatches.ndjson")
-    rep_i = vlib.run_harness(binp, ["replay-img", img_cases, img_mm])
+    rep_i, mm_i, deaths_i = _replay(ctx, binp, "replay-img", img_cases, img_mm)
     cnt_i = rep_i.pop("counters", {})
     ctx.note("replay-img: %s" % json.dumps(rep_i))
-    rep_n = vlib.run_harness(binp, ["replay-names", name_cases, name_mm])
+    rep_n, mm_n, deaths_n = _replay(ctx, binp, "replay-names", name_cases, name_mm)
     cnt_n = rep_n.pop("counters", {})
     ctx.note("replay-names: %s" % json.dumps(rep_n))
 
     violations = []
+    for mode, deaths in (("img", deaths_i), ("names", deaths_n)):
+        for fam, why in deaths:
+            violations.append(Violation("crash|%s|%s" % (mode, fam), "allsorts brought the harness down while the generated %s cases of "
+                                        "family %s (well-formed tables) were replayed: %s" % (mode, fam, why),
+                                        {"source": "generated", "kind": mode, "family": fam, "why": why}))
     gen_by_key = {}
     all_img = img_lines
     planted_routes = set()
     seen = set()
-    for m in vlib.read_ndjson(img_mm):
+    for m in mm_i:
         if m["fam"] == "selftest":
             planted_routes.add(m["api"])
             continue
@@ -223,7 +276,7 @@ def run(ctx):
     if planted_routes != {"font", "low:cblc", "low:sbix"}:
         raise vlib.ToolError("binding self-check failed: the falsified image expectations were reported by %s only" % sorted(planted_routes))
     planted_names = set()
-    for m in vlib.read_ndjson(name_mm):
+    for m in mm_n:
         if m["fam"] == "selftest":
             planted_names.add(m["api"])
             continue
@@ -243,7 +296,20 @@ def run(ctx):
 
     # ---------------------------------------------------------------- impl -> spec
     img_trace, names_trace = ctx.path("img_trace.ndjson"), ctx.path("names_trace.ndjson")
-    rec = vlib.run_harness(binp, ["record", ctx.seed, tier, img_trace, names_trace], timeout=1500)
+    try:
+        rec = vlib.run_harness(binp, ["record", ctx.seed, tier, img_trace, names_trace], timeout=1500)
+    except vlib.ToolError as e:
+        known0 = vlib.load_known(ctx.prop)
+        if any(v.key not in known0 for v in violations):
+            # allsorts took the recording process down too (e.g. an unbounded recursion on a repository font): the
+            # violations found by the replay are the verdict
+            ctx.note("record died as well: %s" % str(e)[:300])
+            vlib.finish(ctx, LEVEL, {"states": mc_i.distinct + mc_n.distinct, "transitions": mc_i.generated + mc_n.generated,
+                                     "traces_validated_against_impl": len(img_lines) + len(name_lines),
+                                     "samples": [json.loads(min(img_lines, key=len))],
+                                     "explanation": "replay only: the recording run died (%s)" % str(e)[:200]},
+                        violations, ASSUMPTIONS)
+        raise
     skipped = rec.pop("skipped", [])
     ctx.note("record: %s; skipped %s" % (json.dumps(rec), skipped))
     rstats = rec.get("stats", {})
@@ -399,6 +465,9 @@ def run(ctx):
 def replay(ctx, path):
     d = json.load(open(path))["detail"]
     binp = vlib.build_harness(BIN)
+    if d.get("family"):
+        print("crash while replaying family %s: %s; re-run the check" % (d["family"], d["why"]))
+        return 1
     if d.get("source") != "generated" or not d.get("case"):
         print("recorded-trace violation: re-run the check with VERIF_SEED=%d; event: %s" % (ctx.seed, vlib.short(d, 2000)))
         return 1
